@@ -666,6 +666,22 @@ def accessor_part(ctx, sch) -> None:
             ctx.count("struct_writes_prepared")
 
 
+def gatt_fetch_part(ctx) -> None:
+    """What the accessory's HAP-BLE signatures declare is what the model holds after the real GATT database fetch
+    (vf/sim_gatt_db.py): formats, permission and event flags, service links in either direction, and the declared limits -
+    a bound of exactly 0 included."""
+    from vf import sim_gatt_db, vloop
+
+    async def main():
+        for k in range(ctx.pick(24, 600)):
+            if ctx.mine(k):
+                ctx.case("gatt-fetch", k, sample={"part": "BLE GATT database fetch", "layout": k}, kind="gatt-fetch")
+                if not await sim_gatt_db.fetch_and_compare(ctx, ctx.grng("C16.gatt-fetch", k), {"gatt_fetch": k}):
+                    return
+
+    vloop.run(main())
+
+
 def run(ctx) -> None:
     classes = load_structs()
     sch = Schema()
@@ -678,9 +694,14 @@ def run(ctx) -> None:
     coap_db_part(ctx)
     ble_sig_part(ctx)
     accessor_part(ctx, sch)
+    gatt_fetch_part(ctx)
 
 
 def replay(ctx, d) -> None:
+    if isinstance(d, dict) and d.get("gatt_fetch") is not None:
+        ctx.shard, ctx.nshards = 0, 1
+        gatt_fetch_part(ctx)
+        return
     # replays re-run the deterministic part the witness came from
     ctx.shard = d.get("shard", 0) if isinstance(d, dict) else 0
     classes = load_structs()
